@@ -28,6 +28,20 @@ def _job(args):
     for it in range(n):
         root, dirs, files = scan.gen_tree(rng, max_depth=5)
         scan.gen_imports(rng, dirs, files, externals=scan.EXTERNALS if it % 3 == 2 else (), nested=True, per_file=6 if it % 3 == 2 else 4)
+        # an import of a package that an exclusion pattern removes, next to an import (elsewhere) of something below that package:
+        # neither importee is part of the architecture, with or without a limit
+        forced_excl = None
+        if it % 3 == 2:
+            pk = [d for d in dirs if len(d) >= 3 and any(f[:len(d)] == d and v["py"] for f, v in files.items())]
+            outside = lambda d: [f for f, v in files.items() if v["py"] and f[:len(d)] != d]
+            pk = [d for d in pk if len(outside(d)) >= 2 and sum(1 for x in list(dirs) + list(files) if x[-1] == d[-1]) == 1]
+            if pk:
+                d0 = rng.choice(pk)
+                below = rng.choice([f for f, v in files.items() if f[:len(d0)] == d0 and v["py"]])
+                f1, f2 = rng.sample(outside(d0), 2)
+                files[f1]["body"].append(("import", [scan.dotted(d0)]))
+                files[f2]["body"].append(("import", [scan.dotted(below)]))
+                forced_excl = "*/" + d0[-1]
         base = scan.materialise(dirs, files)
         try:
             # module_path = root, and one directory at each depth below it (1, 2, 3+ levels below root)
@@ -42,6 +56,9 @@ def _job(args):
                     if names and rng.random() < 0.8:
                         nm = rng.choice(names)
                         opts["exclusions"] = (rng.choice(["*" + nm + ".py", "*/" + nm, "*" + nm + "*"]),)
+                    if forced_excl and rng.random() < 0.6:
+                        opts["exclusions"] = (forced_excl,)
+                        out["stats"]["excluded_package_imported_and_something_below_it_imported_elsewhere"] = out["stats"].get("excluded_package_imported_and_something_below_it_imported_elsewhere", 0) + 1
                     if rng.random() < 0.5:
                         opts["exclude_external_libraries"] = False
                         if rng.random() < 0.7:
